@@ -79,6 +79,7 @@ pub struct Checker {
     pub c16: crate::oracle2::C16State,
     pub c18: crate::oracle2::C18State,
     pub c06: crate::oracle2::C06State,
+    pub c09f: crate::oracle3::C09FiltersState,
     pub c02: crate::oracle2::C02State,
     pub c01: crate::oracle2::C01State,
     pub c04: crate::oracle2::C04State,
@@ -458,6 +459,7 @@ impl Checker {
         crate::oracle2::c06_before(self, sim, session, proto, data, tag);
         crate::oracle2::c07_before(self, sim, session, proto, data, tag);
         crate::oracle2::c11_before(self, sim, session, proto, data, tag);
+        crate::oracle3::c09_filters_before(self, sim, proto, data);
     }
 
     pub fn after_deliver(
@@ -474,6 +476,7 @@ impl Checker {
         crate::oracle2::c06_after(self, sim, session, proto, data, tag);
         crate::oracle2::c11_after(self, sim, session, proto, data, tag);
         crate::oracle2::c16_after_deliver(self, sim, session, proto, data, tag);
+        crate::oracle3::c09_filters_after(self, sim);
         self.last_cur = self.cur.take();
     }
 
